@@ -821,4 +821,83 @@ theorem at_wf (h : Heap) (ids : List Nat) (hw : WF h (0 :: ids)) (n : Nat) :
   obtain ⟨pre', p', post', e1, e2, e3⟩ := atLoop_seg ids [] 0 h (h.size + 1) n hw.seg hw.nodup (by omega)
   exact ⟨pre', p', post', by simpa using e1, by simpa using e2, e3⟩
 
+/-! ## abstract effect of the editing operations (used by `Props/C10.lean` and `MlinkRefine.lean`) -/
+
+theorem push_abs (h : Heap) (pre : List Nat) (p : Nat) (post : List Nat) (v : Int)
+    (hw : WF h (pre ++ p :: post)) :
+    ∃ h1 n, push h p v = .ok h1 ∧ WF h1 (pre ++ p :: n :: post) ∧
+      abs h1 (pre ++ p :: n :: post) =
+        (abs h (pre ++ p :: post)).take pre.length ++ v :: (abs h (pre ++ p :: post)).drop pre.length := by
+  obtain ⟨h1, e1, w1, _, v1, v2⟩ := push_wf h pre p post v hw
+  refine ⟨h1, h.size, e1, w1, ?_⟩
+  obtain ⟨t1, t2⟩ := take_drop_split h pre p post
+  rw [t1, t2, (abs_split h1 pre p (h.size :: post)).1, List.map_cons, v1]
+  have hne : ∀ j ∈ pre ++ p :: post, j ≠ h.size := fun j hj e => by
+    have := hw.bound j hj; omega
+  congr 1
+  · apply List.map_congr_left
+    intro j hj
+    exact v2 j (hne j (by have := List.mem_of_mem_tail hj; simp only [List.mem_append, List.mem_singleton] at this; simp only [List.mem_append, List.mem_cons]; rcases this with h | h <;> simp [h]))
+  · congr 1
+    apply List.map_congr_left
+    intro j hj
+    exact v2 j (hne j (by simp [hj]))
+
+theorem add_abs : ∀ (vs : List Int) (h : Heap) (pre : List Nat) (p : Nat) (post : List Nat),
+    WF h (pre ++ p :: post) →
+    ∃ h1 pre1 p1, add h p vs = .ok (h1, p1) ∧ WF h1 (pre1 ++ p1 :: post) ∧
+      pre1.length = pre.length + vs.length ∧
+      abs h1 (pre1 ++ p1 :: post) =
+        (abs h (pre ++ p :: post)).take pre.length ++ vs ++ (abs h (pre ++ p :: post)).drop pre.length ∧
+      ∃ mid, mid.length = vs.length ∧ pre1 ++ [p1] = pre ++ p :: mid := by
+  intro vs
+  induction vs with
+  | nil =>
+    intro h pre p post hw
+    exact ⟨h, pre, p, rfl, hw, rfl, by simp, [], rfl, rfl⟩
+  | cons v vs ih =>
+    intro h pre p post hw
+    obtain ⟨h1, n, e1, w1, a1⟩ := push_abs h pre p post v hw
+    have hn := next_cell h1 pre p n post w1.seg w1.nodup
+    have w1' : WF h1 ((pre ++ [p]) ++ n :: post) := by simpa using w1
+    obtain ⟨h2, pre2, p2, e2, w2, l2, a2, mid, m1, m2⟩ := ih h1 (pre ++ [p]) n post w1'
+    refine ⟨h2, pre2, p2, by simp [add, e1, hn, e2], w2, by simp at l2 ⊢; omega, ?_,
+      n :: mid, by simp [m1], by simpa using m2⟩
+    rw [a2]
+    have hA : abs h1 (pre ++ [p] ++ n :: post) = abs h1 (pre ++ p :: n :: post) := by simp
+    rw [hA, a1]
+    have hlen : ((abs h (pre ++ p :: post)).take pre.length ++ [v]).length = (pre ++ [p]).length := by
+      rw [(take_drop_split h pre p post).1]; simp
+    have hsplit : (abs h (pre ++ p :: post)).take pre.length ++ v :: (abs h (pre ++ p :: post)).drop pre.length =
+        ((abs h (pre ++ p :: post)).take pre.length ++ [v]) ++ (abs h (pre ++ p :: post)).drop pre.length := by simp
+    rw [hsplit, List.take_left' hlen, List.drop_left' hlen]
+    simp
+
+theorem remove_abs (h : Heap) (pre : List Nat) (p t : Nat) (post : List Nat)
+    (hw : WF h (pre ++ p :: t :: post)) :
+    ∃ h1, remove h p = .ok (h1, (abs h (pre ++ p :: t :: post)).getD pre.length 0) ∧
+      WF h1 (pre ++ p :: post) ∧
+      abs h1 (pre ++ p :: post) = (abs h (pre ++ p :: t :: post)).eraseIdx pre.length ∧
+      h1.link t = some t := by
+  obtain ⟨h1, e1, w1, l1, v1, _⟩ := remove_wf h pre p t post hw
+  obtain ⟨a1, a2⟩ := abs_split h pre p (t :: post)
+  have hval : ∀ j, h1.val j = h.val j := fun j => by simp [Heap.val, v1]
+  refine ⟨h1, ?_, w1, ?_, l1⟩
+  · rw [e1, a1, getD_append_at _ _ _ _ a2]; simp
+  · rw [(abs_split h1 pre p post).1, a1, List.eraseIdx_append_of_length_le (by omega), a2, Nat.sub_self]
+    simp only [List.map_cons, List.eraseIdx_cons_zero]
+    congr 1 <;> exact List.map_congr_left (fun j _ => hval j)
+
+theorem truncate_abs (h : Heap) (pre : List Nat) (p : Nat) (post : List Nat)
+    (hw : WF h (pre ++ p :: post)) :
+    ∃ h1, truncate h p = .ok h1 ∧ WF h1 (pre ++ [p]) ∧
+      abs h1 (pre ++ [p]) = (abs h (pre ++ p :: post)).take pre.length ∧
+      ∀ j ∈ post, h1.link j = some j := by
+  obtain ⟨h1, e1, w1, l1, v1, _⟩ := truncate_wf h pre p post hw
+  refine ⟨h1, e1, w1, ?_, l1⟩
+  rw [(take_drop_split h pre p post).1, (abs_split h1 pre p []).1]
+  simp only [List.map_nil, List.append_nil]
+  exact List.map_congr_left (fun j _ => by simp [Heap.val, v1])
+
+
 end MdsVerif.Proofs.Mlink
